@@ -36,13 +36,16 @@ type c10Cmd struct {
 	Log  bool
 }
 
-var c10Cmds = []c10Cmd{
-	{[]string{"reg"}, true, true}, {[]string{"bal"}, true, true}, {[]string{"csv", "log"}, false, true},
-	{[]string{"csv", "database"}, true, false}, {[]string{"csv", "database-resolved"}, true, false}, {[]string{"print"}, false, true},
-	{[]string{"report", "totals"}, true, true}, {[]string{"report", "quantity"}, false, true}, {[]string{"report", "unresolved"}, true, true},
-	{[]string{"report", "element-total", "cal"}, true, false}, {[]string{"summary", "2021/01/24"}, true, true},
-	{[]string{"reg", "-s", "cal"}, true, true}, {[]string{"bal", "-s", "cal"}, true, true}, {[]string{"lint", "log.yaml"}, false, true}, {[]string{"lint", "--silent", "log.yaml"}, false, true},
-}
+var c10Cmds = func() []c10Cmd {
+	var out []c10Cmd
+	for _, s := range allShapes {
+		if s.Args[0] == "stats" {
+			continue // opens its files itself: covered on real files below
+		}
+		out = append(out, c10Cmd{s.Args, s.Db, s.Log})
+	}
+	return out
+}()
 
 func parseWithReader(r *faultReader) (string, error, string) {
 	var sb strings.Builder
@@ -270,7 +273,11 @@ func checkC10(w *Worker) {
 				x.Case("skip", false)
 				return
 			}
-			args = append(args, "-d", "adir")
+			if cmd.Args[0] == "lint" {
+				cmd.Args = append(append([]string{}, cmd.Args[:len(cmd.Args)-1]...), "adir")
+			} else {
+				args = append(args, "-d", "adir")
+			}
 		default:
 			n := []int{65535, 65536, 65537, 70000}[kind-2]
 			pos := x.Choose(3, "fault:long-line-position")
